@@ -69,6 +69,7 @@ fn err_code(e: &ExecutorError) -> i64 {
         ExecutorError::TypeMismatch { .. } => 1,
         ExecutorError::DivisionByZero => 2,
         ExecutorError::UnsupportedFeature(_) | ExecutorError::UnsupportedExpression(_) => 3,
+        ExecutorError::TypeConversionError { .. } => 4,
         _ => 0,
     }
 }
@@ -797,7 +798,8 @@ fn oracle(sum: &mut Summary, ctx: &Ctx, id: u64, c: &Case, od: &Obs, orl: &Obs) 
         }
     }
     exactness(sum, id, c, od, orl);
-    // 3. sums of integer columns: exact, NULL or an error, never a wrapped value
+    // 3. sums of integer columns: the exact sum, or NULL / an error / the documented saturation of the i64
+    //    helper when the exact sum cannot be represented -- never a wrapped value
     if let Some(zs) = case_ints(c) {
         let all_int = match c {
             Case::SimdSum(_) => true,
@@ -809,18 +811,37 @@ fn oracle(sum: &mut Summary, ctx: &Ctx, id: u64, c: &Case, od: &Obs, orl: &Obs) 
         let distinct = matches!(c, Case::AccAgg { distinct: true, .. });
         if all_int && !distinct {
             let total: i128 = zs.iter().map(|z| *z as i128).sum();
+            let mut run: i128 = 0;
+            let mut prefix_over = false;
+            for z in &zs {
+                run += *z as i128;
+                if !fits(run) {
+                    prefix_over = true;
+                }
+            }
             for (which, o) in [("debug", od), ("release", orl)] {
                 if let Obs::Val(s) = o {
-                    let expect: Vec<String> = if zs.is_empty() && !matches!(c, Case::SimdSum(_)) {
-                        vec!["VNull".into()]
-                    } else {
-                        vec![
-                            coq_value(&SqlValue::Integer(total as i64)),
-                            coq_value(&SqlValue::Bigint(total as i64)),
-                            coq_value(&SqlValue::Double(total as f64)),
-                        ]
+                    let ok = match c {
+                        // simd_sum_i64: the exact sum, saturated at the i64 bounds (documented)
+                        Case::SimdSum(_) => *s == coq_value(&SqlValue::Bigint(total.clamp(i64::MIN as i128, i64::MAX as i128) as i64)),
+                        // columnar SUM: accumulated in i128, converted once
+                        Case::ColAgg { .. } => {
+                            if zs.is_empty() {
+                                s == "VNull"
+                            } else {
+                                *s == coq_value(&SqlValue::Double(total as f64))
+                            }
+                        }
+                        // accumulator SUM: exact while every partial sum (in row order) fits i64, NULL afterwards
+                        _ => {
+                            if zs.is_empty() || prefix_over {
+                                s == "VNull"
+                            } else {
+                                *s == coq_value(&SqlValue::Integer(total as i64))
+                            }
+                        }
                     };
-                    if !(expect.contains(s) && (fits(total) || s == "VNull")) {
+                    if !ok {
                         let class = if partial_sum_overflows(&zs) { "sum-i64-overflow" } else { "result-mismatch" };
                         sum.finding(class, id, format!("{} build returned {} but the exact sum is {}", which, s, total), case_json(c));
                         sum.count(&format!("inexact/{}/{}", which, class));
